@@ -123,6 +123,11 @@ func runCheck(args []string, repo, specs, tier string, jobs int, verbose bool) i
 	}
 	work := filepath.Join(verifDir, "work", prop)
 	os.RemoveAll(work)
+	if old, _ := filepath.Glob(filepath.Join(verifDir, "work", "replay", prop+"-*")); old != nil {
+		for _, f := range old {
+			os.Remove(f)
+		}
+	}
 	os.MkdirAll(work, 0o755)
 
 	var all []*Obligation
@@ -218,6 +223,7 @@ func runCheck(args []string, repo, specs, tier string, jobs int, verbose bool) i
 	// bounded stand-ins (never counted as proved)
 	var boundedReports []map[string]interface{}
 	boundedViol := []string{}
+	var boundedKnown []string
 	for _, bname := range ps.Bounded {
 		if bname == "C18C" {
 			var j ReglJob
@@ -234,9 +240,19 @@ func runCheck(args []string, repo, specs, tier string, jobs int, verbose bool) i
 			boundedViol = append(boundedViol, viol...)
 			continue
 		}
-		rep, viol := runBounded(bname, repo, verifDir, prop, thorough, seed)
+		rep, bfs := runBounded(bname, repo, verifDir, prop, thorough, seed)
 		boundedReports = append(boundedReports, rep)
-		boundedViol = append(boundedViol, viol...)
+		for _, bf := range bfs {
+			if kf := known.match(prop, "bounded :: "+bf.Name); kf != nil {
+				boundedKnown = append(boundedKnown, "bounded :: "+bf.Name)
+				fmt.Printf("KNOWN-FINDING: property=%s bounded :: %s — %s (input: %s)\n", prop, bf.Name, kf.What, kf.Input)
+				continue
+			}
+			os.MkdirAll(filepath.Join(verifDir, "work", "replay"), 0o755)
+			f := filepath.Join(verifDir, "work", "replay", fmt.Sprintf("%s-%s.txt", prop, strings.ReplaceAll(bf.Name, "/", "-")))
+			os.WriteFile(f, []byte(bf.Replay), 0o644)
+			boundedViol = append(boundedViol, fmt.Sprintf("VIOLATION property=%s replay=%s obligation=%q", prop, f, "bounded :: "+bf.Name))
+		}
 	}
 
 	nDis, nKnown, nViol := 0, 0, 0
@@ -320,7 +336,7 @@ func runCheck(args []string, repo, specs, tier string, jobs int, verbose bool) i
 			"obligations":               total - nKnown,
 			"discharged":                nDis,
 			"known_finding_obligations": nKnown,
-			"known_findings_hit":        knownHit,
+			"known_findings_hit":        append(knownHit, boundedKnown...),
 			"checker_cmd":               fmt.Sprintf("/verif/bin/govc check --tier %s %s  (SMT-LIB queries under %s; solvers: z3-new 5.1.0, z3 4.8.12, cvc5 1.0.3; per-solver timeout %ds)", tier, prop, work, timeout),
 			"trusted_base":              ps.Trusted,
 			"functions_under_contract":  fns,
@@ -342,7 +358,7 @@ func runCheck(args []string, repo, specs, tier string, jobs int, verbose bool) i
 	eb, _ := json.MarshalIndent(ev, "", " ")
 	os.WriteFile(filepath.Join(evDir, prop+".json"), eb, 0o644)
 
-	fmt.Printf("%s: %d obligations, %d discharged, %d known findings, %d violations (%.1fs)\n", prop, total, nDis, nKnown, nViol, time.Since(start).Seconds())
+	fmt.Printf("%s: %d obligations, %d discharged, %d known findings, %d violations (%.1fs)\n", prop, total, nDis, nKnown+len(boundedKnown), nViol, time.Since(start).Seconds())
 	for _, l := range violLines {
 		fmt.Println(l)
 	}
